@@ -653,6 +653,36 @@ func StructPadNestOff() Type[PadNestOff] {
 		[]string{"{0,{0,0,0},0}", "{1,{0,0,0},0}", "{0,{0,0,1},0}", "{max,{min,max,255},max}"}, fwPadNestOff, true))
 }
 
+// PadDeep nests structs THREE levels deep, each inner struct at a non-zero offset and with padding of its own: the
+// padding map of the innermost struct has to be placed at the sum of two offsets.
+type PadDeepMid struct {
+	U  uint16
+	In PadLead // offset 8 inside PadDeepMid: A at 8, padding 9..15, B at 16
+	V  uint8   // offset 24, trailing padding 25..31
+}
+type PadDeep struct {
+	T   uint32     // padding 4..7
+	Mid PadDeepMid // offset 8: the innermost padding sits at 8+8+1 .. 8+8+7
+}
+
+//go:noinline
+func fwPadDeep(k PadDeep) PadDeep {
+	Dirty(0xEE)
+	var r PadDeep
+	r.T = k.T
+	r.Mid.U = k.Mid.U
+	r.Mid.In.A = k.Mid.In.A
+	r.Mid.In.B = k.Mid.In.B
+	r.Mid.V = k.Mid.V
+	return r
+}
+
+func StructPadDeep() Type[PadDeep] {
+	return mkType("struct{T uint32; Mid struct{U uint16; In struct{A uint8; B uint64}; V uint8}}", "struct-pad-mem", true, aggKeys(
+		[]PadDeep{{}, {T: 1}, {Mid: PadDeepMid{In: PadLead{1, 0}}}, {Mid: PadDeepMid{V: 1}}, {math.MaxUint32, PadDeepMid{65535, PadLead{255, math.MaxUint64}, 255}}},
+		[]string{"{0,{0,{0,0},0}}", "{1,{0,{0,0},0}}", "{0,{0,{1,0},0}}", "{0,{0,{0,0},1}}", "{max,{max,{255,max},255}}"}, fwPadDeep, true))
+}
+
 type PadPtr struct {
 	P *int
 	B bool
